@@ -134,6 +134,7 @@ def run_tlc(tag, module, consts, invariants, table_path=None, timeout=900, extra
 
 
 # ------------------------------------------------------------------ engines --
+PAIR_INVS = ["TypeOK", "UniqueKeys", "EqIsExtensional", "AlgebraIsMath"]
 ALL_INVS = ["TypeOK", "Bounded", "UniqueKeys", "RefinesDict", "Conservation", "UncheckedAgrees", "DisjointAgrees"]
 
 
@@ -147,13 +148,18 @@ def mapgraph(pid, tier, seed, jobs, profiles):
     failures = []  # (props-set, example)
     for job in jobs:
         tag = "%s-%s-%s" % (pid, tier, job["tag"])
-        consts = {"Caps": [0, 1, 2], "Classes": [0, 1, 2], "Vers": [0, 1], "Vals": [0, 1], "Mode": job.get("mode", "map"),
-                  "Family": job["family"], "Emit": True, "MaxKs": 3, "MaxExtra": 2}
+        pair = job.get("spec") == "pair"
+        if pair:
+            consts = {"CapA": 2, "CapB": 2, "Classes": [0, 1, 2], "VerA": 0, "VerB": 1, "Vals": [0, 1], "Mode": job.get("mode", "set"),
+                      "Family": job["family"], "Emit": True}
+        else:
+            consts = {"Caps": [0, 1, 2], "Classes": [0, 1, 2], "Vers": [0, 1], "Vals": [0, 1], "Mode": job.get("mode", "map"),
+                      "Family": job["family"], "Emit": True, "MaxKs": 3, "MaxExtra": 2}
         consts.update(job.get("consts", {}))
         if consts["Mode"] == "set":
             consts["Vals"] = [0]
         table = os.path.join(WORK, "table-%s.ndjson" % tag)
-        st = run_tlc(tag, "MapSpec", consts, ALL_INVS, table_path=table, timeout=job.get("timeout", 1500))
+        st = run_tlc(tag, "PairSpec" if pair else "MapSpec", consts, PAIR_INVS if pair else ALL_INVS, table_path=table, timeout=job.get("timeout", 1500))
         if not st["ok"]:
             raise ToolError("TLC reports an error on the specification itself (%s):\n%s" % (tag, st["text"][-3000:]))
         if st["emitted"] == 0:
@@ -167,6 +173,8 @@ def mapgraph(pid, tier, seed, jobs, profiles):
             prog = os.path.join(WORK, "progress-%s-%s.txt" % (tag, prof))
             cmd = [binp, "replay", "--table", table, "--mode", consts["Mode"], "--edges", "--out", rep_path, "--progress", prog,
                    "--walks", str(job.get("walks", 20)), "--steps", str(job.get("steps", 500)), "--seed", str(seed)]
+            if pair:
+                cmd = [binp, "pairs", "--table", table, "--mode", consts["Mode"], "--out", rep_path, "--progress", prog]
             if os.path.exists(rep_path):
                 os.remove(rep_path)
             p = subprocess.run(cmd, stdout=subprocess.PIPE, stderr=subprocess.STDOUT, text=True, timeout=3000)
@@ -229,6 +237,12 @@ def jobs_for(pid, tier):
             js.append(J(tag + "-n3", family, mode, c, **kw))
         return js
 
+    def pairs(tag, family, mode, caps):
+        return [dict(tag="%s-%dx%d" % (tag, ca, cb), spec="pair", family=family, mode=mode,
+                     consts={"CapA": ca, "CapB": cb, "Classes": ([0, 1, 2] if max(ca, cb) <= 3 and q else [0, 1, 2, 3])}) for ca, cb in caps]
+
+    qcaps = [(2, 3), (3, 2), (0, 2), (2, 0)]
+    tcaps = [(2, 3), (3, 2), (0, 2), (2, 0), (0, 0), (1, 1), (2, 2), (3, 3), (3, 4), (4, 3), (4, 4), (2, 4), (4, 2)]
     core = both("core", ["core"])
     setcore = both("setcore", ["core"], mode="set")
     table = {
@@ -242,12 +256,45 @@ def jobs_for(pid, tier):
         "C16": both("bulk", ["bulk"], bigconsts={"MaxExtra": 1}) + both("setbulk", ["bulk"], mode="set", consts={"MaxExtra": 1}, bigconsts={"Vers": [0]}),
         "C18": both("unchecked", ["unchecked"], consts={"MaxKs": 3}, bigconsts={"Vers": [0], "MaxKs": 4}),
         "C19": both("fmt", ["fmt", "cursor"]) + setcore,
+        "C08": pairs("alg", ["algebra"], "set", qcaps if q else tcaps),
+        "C14": pairs("eqset", ["eq"], "set", qcaps if q else tcaps) + pairs("eqmap", ["eq"], "map", qcaps[:2] if q else tcaps[:9]),
+        "C15": both("clone", ["clone"]) + both("setclone", ["clone"], mode="set"),
+        "C20": both("serde", ["serde"]) + both("setserde", ["serde"], mode="set"),
+        "C06": core + both("cursor", ["cursor"]) + both("efdc", ["entry", "fmt", "disjoint", "clone", "unchecked"], consts={"Vers": [0]})
+               + setcore + both("setclone", ["clone"], mode="set")
+               + pairs("alg", ["algebra", "eq"], "set", qcaps[:2] if q else tcaps[:8]) + pairs("eqmap", ["eq"], "map", qcaps[:1] if q else tcaps[:4]),
         "C05": core + both("entry", ["entry"]) + setcore,
         "C02": core + both("cursor", ["cursor"]) + setcore,
         "C03": core + both("entry", ["entry"]) + both("bulk", ["bulk"], bigconsts={"MaxExtra": 1}) + setcore
                + both("setbulk", ["bulk"], mode="set", consts={"MaxExtra": 1}, bigconsts={"Vers": [0]}),
     }
     return table.get(pid)
+
+
+def nostd_probe():
+    """C06, compile-time clause: the crate builds without the standard library.
+    Build the library alone with default features (where #![no_std] must be in effect)
+    and read the crates the produced rlib links against: core (+compiler_builtins) only."""
+    tdir = os.path.join(WORK, "probe-nostd")
+    p = sh(["cargo", "+nightly", "build", "--lib", "--offline", "--quiet", "--target-dir", tdir], cwd=REPO, timeout=900, check=False)
+    info = {"cmd": "cargo +nightly build --lib (default features) ; rustc +nightly -Zls=root libmicromap.rlib"}
+    if p.returncode != 0:
+        raise ToolError("the library does not build on its own: %s" % p.stdout[-2000:])
+    rlib = os.path.join(tdir, "debug", "libmicromap.rlib")
+    q = sh(["rustc", "+nightly", "-Zls=root", rlib], timeout=120, check=False)
+    if q.returncode != 0 or "=External Dependencies=" not in q.stdout:
+        raise ToolError("cannot read crate metadata: %s" % q.stdout[-1000:])
+    deps = []
+    for line in q.stdout.split("=External Dependencies=")[1].splitlines():
+        m = re.match(r"\s*\d+\s+([A-Za-z0-9_]+)-[0-9a-f]+\s", line)
+        if m:
+            deps.append(m.group(1))
+    info["links_against"] = deps
+    fails = []
+    if "std" in deps:
+        fails.append(({"C06"}, {"how": "build probe", "msg": "built with default features the library links against std: %s" % deps}))
+    info["alloc_crate_linked"] = "alloc" in deps
+    return info, fails
 
 
 GATES = {  # failure attributions that make a check for <pid> report a violation
@@ -261,6 +308,10 @@ def run_check(pid, tier, seed):
     if jobs is None:
         raise ToolError("no engine registered for %s" % pid)
     summary, failures = mapgraph(pid, tier, seed, jobs, ["debug", "release"])
+    if pid == "C06":
+        info, fl = nostd_probe()
+        summary["nostd_probe"] = info
+        failures.extend(fl)
     gate = GATES.get(pid, {pid, "CRASH"}) | {"SPEC"}
     mine = [ex for props, ex in failures if props & gate]
     others = {}
@@ -283,6 +334,7 @@ def write_evidence(pid, tier, seed, summary, nviol, wall, others):
             "emitted_transitions": summary["emitted"], "replayed_edges": summary["replayed_edges"], "walk_steps": summary["walk_steps"],
             "spec_drift_steps": summary["drift"], "tlc_runs": summary["tlc"], "replays": summary["replays"],
             "op_counts": summary["op_counts"], "other_property_failures_seen": others,
+            "nostd_probe": summary.get("nostd_probe"),
             "explanation": "TLC exhaustively explored the stated constants checking the invariants in every state and "
                            "emitted every (state, operation) transition; each emitted transition was replayed against the real crate "
                            "from a canonical construction and along random walks, in debug and release builds.",
